@@ -153,7 +153,55 @@ static size_t wrap_raw(const uint8_t *doc, size_t n, unsigned variant, uint8_t *
 // C16 deterministic sweep: for every swept field-name length L the document {"a":[true x 60], K(L): 1, K(L)+"x": 2};
 // the cursor stops on the un-entered array, then lookups that overshoot onto K, hit K, and miss after it are each
 // measured (token callbacks vs. bytes advanced); a per-document alarm turns a hang into exit code 77.
+// variants 2, 3: the array [ <string | bytes of L bytes>, 1 ] - verify, a walk with the getters, get_raw of the root, and
+// to_string with the NULL query, the exact size, one less and one more, all under the same alarm and token/byte bound
+static void c16_payload_case(size_t L, unsigned variant) {
+    Value root;
+    root.k = ref::K_ARR;
+    Value pl;
+    pl.k = variant == 2 ? ref::K_STR : ref::K_BYT;
+    pl.s = Bytes(L, (uint8_t)(variant == 2 ? 'p' : 0xA5));
+    root.c.push_back(pl);
+    Value one; one.k = ref::K_INT; one.i = 1;
+    root.c.push_back(one);
+    Bytes doc = ref::encode(root);
+    PBox pb;
+    pb.make(2, nullptr, 0, 0);
+    pb.set_input(doc);
+    binson_parser *p = pb.p;
+    auto fail = [&](const char *what, uint64_t tokens, uint64_t adv) {
+        throw Failure{std::string("C16/payload-sweep/") + what, fmt("%s of %zu bytes: %s (%" PRIu64 " token callbacks, %" PRIu64 " bytes)", variant == 2 ? "string" : "bytes", L, what, tokens, adv)};
+    };
+    // only termination (the alarm) and the token/byte bound are judged here: what the calls return is C03/C13's business
+    if (!pb.init(true)) return;
+    Count cnt{0};
+    p->cb = count_cb;
+    p->cb_context = &cnt;
+    (void)binson_parser_verify(p);
+    p->cb = NULL;
+    p->cb_context = NULL;
+    if (cnt.tokens > doc.size() + 1) fail("verify/tokens>len", cnt.tokens, doc.size());
+    (void)binson_parser_go_into_array(p);
+    (void)binson_parser_next(p);
+    (void)binson_parser_get_string_bbuf(p);
+    (void)binson_parser_get_bytes_bbuf(p);
+    (void)binson_parser_next(p);
+    (void)binson_parser_leave_array(p);
+#ifdef BINSON_PARSER_WITH_PRINT
+    size_t need = 0;
+    (void)binson_parser_to_string(p, nullptr, &need, false);
+    if (need > 4 * L + 4096) need = 4 * L + 4096;
+    const size_t caps[] = {need ? need - 1 : 0, need, need + 1, 2 * L + 64, 4 * L + 4096};
+    for (size_t cap : caps) {
+        Block dst(cap);
+        size_t sz = cap;
+        (void)binson_parser_to_string(p, (char *)dst.p, &sz, false);
+    }
+#endif
+}
+
 static void c16_sweep_case(size_t L, unsigned variant) {
+    if (variant >= 2) { c16_payload_case(L, variant & 3); return; }
     Value root;
     root.k = ref::K_OBJ;
     Value arr; arr.k = ref::K_ARR;
@@ -379,7 +427,7 @@ static int enumerate(int shard, int nshards, const char *tier) {
     Stats &st = stats();
     for (size_t i = 0; i < Ls.size(); i++) {
         if ((int)(i % (size_t)nshards) != shard) continue;
-        for (unsigned v = 0; v < 2; v++) {
+        for (unsigned v = 0; v < 4; v++) {
             uint8_t cs[6] = {0xA9, (uint8_t)v};
             uint32_t l32 = (uint32_t)Ls[i];
             memcpy(cs + 2, &l32, 4);
